@@ -286,13 +286,16 @@ impl FileSpec {
     }
 
     // handles collisions by appending ".restart-<number>" to the infix, if necessary
-    pub(crate) fn collision_free_infix_for_rotated_file(&self, infix: &str) -> String {
-        let uncompressed_files = self.list_of_files(
+    pub(crate) fn collision_free_infix_for_rotated_file(
+        &self,
+        infix: &str,
+    ) -> std::io::Result<String> {
+        let uncompressed_files = self.try_list_of_files(
             &InfixFilter::Equls(infix.to_string()),
             self.o_suffix.as_deref(),
-        );
+        )?;
         let compressed_files =
-            self.list_of_files(&InfixFilter::Equls(infix.to_string()), Some("gz"));
+            self.try_list_of_files(&InfixFilter::Equls(infix.to_string()), Some("gz"))?;
 
         let mut restart_siblings = uncompressed_files
             .into_iter()
@@ -344,28 +347,35 @@ impl FileSpec {
                 file_stem_string[(index + 9)..(index + 13)].parse::<usize>().unwrap(/*ok*/) + 1
             };
 
-            infix.to_string().add(&format!(".restart-{next_number:04}"))
+            Ok(infix.to_string().add(&format!(".restart-{next_number:04}")))
         } else {
-            infix.to_string()
+            Ok(infix.to_string())
         }
     }
 
+    #[cfg(test)]
     pub(crate) fn list_of_files(
         &self,
         infix_filter: &InfixFilter,
         o_suffix: Option<&str>,
     ) -> Vec<PathBuf> {
-        self.filter_files(&self.read_dir_related_files(), infix_filter, o_suffix)
+        self.try_list_of_files(infix_filter, o_suffix).unwrap()
+    }
+
+    pub(crate) fn try_list_of_files(
+        &self,
+        infix_filter: &InfixFilter,
+        o_suffix: Option<&str>,
+    ) -> std::io::Result<Vec<PathBuf>> {
+        Ok(self.filter_files(&self.read_dir_related_files()?, infix_filter, o_suffix))
     }
 
     // returns an ordered list of all files in the right directory that start with the fixed_name_part
-    pub(crate) fn read_dir_related_files(&self) -> Vec<PathBuf> {
+    pub(crate) fn read_dir_related_files(&self) -> std::io::Result<Vec<PathBuf>> {
         let fixed_name_part = self.fixed_name_part();
         #[cfg(flexi_logger_verif)]
-        crate::verif_hooks::fs_point(crate::verif_hooks::FsOp::ReadDir, &self.directory)
-            .unwrap(/*like the read_dir below*/);
-        let mut log_files = std::fs::read_dir(&self.directory)
-            .unwrap(/*ignore errors from reading the directory*/)
+        crate::verif_hooks::fs_point(crate::verif_hooks::FsOp::ReadDir, &self.directory)?;
+        let mut log_files = std::fs::read_dir(&self.directory)?
             .flatten(/*ignore errors from reading entries in the directory*/)
             .filter(|entry| entry.path().is_file())
             .map(|de| de.path())
@@ -380,7 +390,7 @@ impl FileSpec {
             .collect::<Vec<PathBuf>>();
         log_files.sort_unstable();
         log_files.reverse();
-        log_files
+        Ok(log_files)
     }
 
     pub(crate) fn filter_files(
